@@ -368,6 +368,13 @@ func (n *node) RegisterName(name gen.Atom, pid gen.PID) error {
 
 	p.name = name
 
+	if p.isAlive() == false {
+		// terminated while the name was being registered. its termination
+		// routine might have missed this name
+		n.names.CompareAndDelete(name, p)
+		return gen.ErrProcessTerminated
+	}
+
 	return nil
 }
 
